@@ -12,7 +12,7 @@ import programs
 
 EXPORT_BODY = r'''
 \* one line per maximal user-level history that ends with a command
-Export == (Quiet /\ Len(hist) = MaxHist /\ hist[Len(hist)].a \in {"cmd", "query"})
+Export == (Quiet /\ Len(hist) = MaxHist /\ hist[Len(hist)].a \in {"cmd", "query", "crash"})
               => PrintT("@@" \o ToJson(hist))
 '''
 
@@ -69,8 +69,8 @@ def group_histories(hists):
 
 def interesting(inp, min_cmds=2):
     """non-trivial history input: at least min_cmds commands, one of them a build"""
-    cmds = [s for s in inp if s[0] in ('cmd', 'query')]
-    builds = [s for s in inp if s[0] == 'cmd']
+    cmds = [s for s in inp if s[0] in ('cmd', 'query', 'crash')]
+    builds = [s for s in inp if s[0] in ('cmd', 'crash')]
     return len(builds) >= 1 and len(cmds) >= min_cmds
 
 
@@ -87,7 +87,7 @@ def replay_all(prog, groups, bindir, root, nworkers=8, log_mode=None, keep_faile
         d = os.path.join(root, 'h%05d' % i)
         try:
             ok, rep = harness.replay_group(prog, alts, d, bindir, log_mode=log_mode, cmd_timeout=cmd_timeout, cats=cats,
-                                           pad=pad, watch=watch, jitter=jitter)
+                                           pad=pad, watch=watch, jitter=jitter, kill_seed=i)
         except Exception as ex:      # harness trouble is reported as a failure of that history
             import traceback
             ok, rep = False, [{'diffs': ['harness exception: %r %s' % (ex, traceback.format_exc()[-600:])]}]
